@@ -33,16 +33,20 @@ func mapIterHook(count int, B uint8) uint64 {
 		return uint64(c.Choose(Env, "mapiter", 8))
 	}
 	total := 8 << B
-	if total <= MaxMapStarts {
+	cap := MaxMapStarts
+	if c.mapCap > 0 {
+		cap = c.mapCap
+	}
+	if total <= cap {
 		v := c.Choose(Env, "mapiter", total)
 		// r & mask = start bucket, (r >> B) & 7 = offset
 		return uint64(v)
 	}
 	// large map: a fixed menu of MaxMapStarts starts (every k-th bucket x 8 offsets)
 	c.ex.Stats.Counters["mapiter_capped_points"]++
-	v := c.Choose(Env, "mapiter-capped", MaxMapStarts)
+	v := c.Choose(Env, "mapiter-capped", cap)
 	nb := 1 << B
-	step := nb / (MaxMapStarts / 8)
+	step := nb / (cap / 8)
 	bucket := (v / 8) * step
 	off := v % 8
 	return uint64(bucket) | uint64(off)<<B
@@ -61,3 +65,7 @@ func (c *Ctx) MapPointsSeen() int { return c.mapSeen }
 
 // SetHashSeed changes the hash seed given to maps created from now on.
 func SetHashSeed(s uint32) { rtHashSeed = s }
+
+// SetMapStartCap sets the number of alternative starts offered for maps too
+// large to enumerate completely (a multiple of 8; default MaxMapStarts).
+func (c *Ctx) SetMapStartCap(n int) { c.mapCap = n }
